@@ -332,7 +332,7 @@ def step (s : Sys) (line : String) : IO Sys := do
       else
         let (t, _) := s.w.index e.id
         if !(s.w.tbl t).has c then emitResult s "panic missing"
-        else emitResult s s!"ok {(s.w.tbl t).getRelation c}"
+        else emitResult s s!"ok {s.entName ((s.w.tbl t).getRelation c)}"
     | _, _ => skip
   | "setrel" :: e :: path :: rest =>
     match s.entOf e, s.compArgs rest with
